@@ -15,7 +15,7 @@ type Mutex struct {
 	epoch uint32
 	id    int
 	owner *Thread
-	site  string
+	site  site // where it was last locked
 	vc    vclock
 }
 
@@ -25,7 +25,6 @@ func (m *Mutex) sync() {
 		m.id = S.newObj()
 		m.owner = nil
 		m.vc = nil
-		m.site = callerSite(3)
 	}
 }
 
@@ -37,10 +36,13 @@ func (m *Mutex) Lock() {
 	m.sync()
 	t := s.cur
 	if m.owner == t {
-		panic(failure{"lockleak", "selflock:" + callerSite(2), fmt.Sprintf("thread %d (%s) locks a mutex it already holds (self-deadlock) at %s; mutex first used at %s", t.ID, t.Name, callerSite(2), m.site)})
+		panic(failure{"lockleak", "selflock:" + callerFunc(2), fmt.Sprintf("thread %d (%s) locks a mutex it already holds (self-deadlock) at %s; it was locked at %s", t.ID, t.Name, callerSite(2), m.site.String())})
 	}
 	s.yield(&op{kind: "lock", obj: m.id, enabled: func() bool { return m.owner == nil }})
 	m.owner = t
+	if s.cfg.Verbose {
+		m.site.record(2)
+	}
 	t.held = append(t.held, m)
 	t.vc.acquire(&m.vc)
 }
@@ -57,6 +59,9 @@ func (m *Mutex) TryLock() bool {
 	}
 	t := s.cur
 	m.owner = t
+	if s.cfg.Verbose {
+		m.site.record(2)
+	}
 	t.held = append(t.held, m)
 	t.vc.acquire(&m.vc)
 	return true
@@ -89,7 +94,6 @@ type RWMutex struct {
 	id      int
 	writer  *Thread
 	readers int
-	site    string
 	vc      vclock
 }
 
@@ -100,7 +104,6 @@ func (m *RWMutex) sync() {
 		m.writer = nil
 		m.readers = 0
 		m.vc = nil
-		m.site = callerSite(3)
 	}
 }
 
@@ -112,7 +115,7 @@ func (m *RWMutex) Lock() {
 	m.sync()
 	t := s.cur
 	if m.writer == t {
-		panic(failure{"lockleak", "selflock:" + callerSite(2), fmt.Sprintf("thread %d (%s) write-locks an RWMutex it already holds at %s", t.ID, t.Name, callerSite(2))})
+		panic(failure{"lockleak", "selflock:" + callerFunc(2), fmt.Sprintf("thread %d (%s) write-locks an RWMutex it already holds at %s", t.ID, t.Name, callerSite(2))})
 	}
 	s.yield(&op{kind: "wlock", obj: m.id, enabled: func() bool { return m.writer == nil && m.readers == 0 }})
 	m.writer = t
